@@ -19,6 +19,8 @@ SEAMDIR = os.path.dirname(os.path.abspath(__file__))
 NAMES = ["G0", "G1", "G2"]
 SHADOW = ["len", "abs", "repr"]          # builtin names that the module namespace may shadow
 BI_MUT = ["ord", "chr"]                  # builtins mutated in the builtins module itself (cache_builtins=False cell only)
+BI_UNDECL = ["sorted", "round"]          # builtins the source never binds and that have no C-level declaration in Cython: with builtin caching off
+                                         # they are looked up at run time, module namespace first (ord/chr are bound to their builtin entries at compile time)
 BI_GLOBALS = ["G0", "G1", "G2", "abs"]   # declared module globals: a read falls back to the builtins module at run time in every cell
 
 C26_SRC = '''
@@ -41,6 +43,8 @@ def r_abs(): return abs
 def r_repr(): return repr
 def r_ord(): return ord
 def r_chr(): return chr
+def r_sorted(): return sorted
+def r_round(): return round
 def r_mix(): return (G0, len, G1)
 
 def w_G0(v):
@@ -81,7 +85,7 @@ def d_repr():
     del repr
 '''
 
-READERS = ["r_G0_a", "r_G0_b", "r_G0_twice", "r_G1_a", "r_G1_b", "r_G2_a", "r_len", "r_len2", "r_abs", "r_repr", "r_mix", "r_ord", "r_chr"]
+READERS = ["r_G0_a", "r_G0_b", "r_G0_twice", "r_G1_a", "r_G1_b", "r_G2_a", "r_len", "r_len2", "r_abs", "r_repr", "r_mix", "r_ord", "r_chr", "r_sorted", "r_round"]
 
 
 def gen_history_c26(rng, maxlen, builtins_mutable):
@@ -103,7 +107,17 @@ def gen_history_c26(rng, maxlen, builtins_mutable):
             ops.append(["shrink"])
         elif builtins_mutable and r < 0.94:
             counter[0] += 1
-            ops.append(["bw", rng.choice(BI_MUT), counter[0]] if rng.random() < 0.6 else ["brestore", rng.choice(BI_MUT)])
+            q = rng.random()
+            if q < 0.40:
+                ops.append(["bw", rng.choice(BI_MUT + BI_UNDECL), counter[0]])
+            elif q < 0.60:
+                ops.append(["brestore", rng.choice(BI_MUT + BI_UNDECL)])
+            elif q < 0.85:
+                # shadow a builtin that the module source never binds, through the module namespace (setattr / __dict__):
+                # with builtin caching off the read must find it there before falling back to the builtins module
+                ops.append(["w", rng.choice(BI_UNDECL), rng.choice(["setattr", "dict"]), counter[0]])
+            else:
+                ops.append(["d", rng.choice(BI_UNDECL), rng.choice(["delattr", "dictpop"])])
         elif r < 0.985:
             # the builtins module as fallback namespace of declared globals (valid with and without cache_builtins)
             counter[0] += 1
@@ -135,11 +149,11 @@ class Marker:
 
 def run_history_c26(mod, ops):
     """Apply ops to a fresh-state module; returns list of read outcomes."""
-    saved_bi = {k: getattr(builtins, k, None) for k in BI_MUT + BI_GLOBALS}
+    saved_bi = {k: getattr(builtins, k, None) for k in BI_MUT + BI_GLOBALS + BI_UNDECL}
     # reset module state: remove the declared names and junk
     d = mod.__dict__
     for k in list(d):
-        if k in NAMES or k in SHADOW or k.startswith("junk_"):
+        if k in NAMES or k in SHADOW or k in BI_UNDECL or k.startswith("junk_"):
             del d[k]
     out = []
     junk = 0
@@ -417,6 +431,32 @@ def cc_h(A o, x):
 def cc_pair(A o, A p):
     # two instances through the same call sites
     return (c_f(o), c_f(p), c_g(o), c_g(p))
+
+# second family: the instance dict comes from a builtin base (exact instances of the cdef classes can carry overrides)
+cdef class EA(Exception):
+    cpdef f(self):
+        return "EA.f"
+    cpdef g(self):
+        return "EA.g"
+
+cdef class EB(EA):
+    cpdef f(self):
+        return "EB.f"
+
+cdef object c_ef(EA o):
+    return o.f()
+
+def cc_ef(EA o):
+    return c_ef(o)
+
+def cc_eg(EA o):
+    return o.g()
+
+def cc_ef2(EA o):
+    return o.f()
+
+def cc_epair(EA o, EA p):
+    return (c_ef(o), c_ef(p), o.g(), p.g())
 '''
 
 METHODS = ["f", "g", "k"]
@@ -437,11 +477,13 @@ def make_world(mod, rng_choices):
 
 
 def gen_history_c27(rng, maxlen):
-    world = {"base": rng.choice(["A", "B", "C"])}
+    world = {"base": rng.choice(["A", "B", "C", "A", "B", "C", "EA", "EB"])}
     ops = []
     counter = [0]
     n = rng.randint(2, maxlen)
     insts = ["x", "p1", "p2", "p3", "p3b", "s1", "s2"]
+    efam = world["base"].startswith("E")
+    dict_insts = ["p1", "p2", "p3", "p3b"] + (["x", "x", "s1"] if efam else [])     # instances that have a __dict__
     for _ in range(n):
         r = rng.random()
         if r < 0.42:
@@ -453,9 +495,9 @@ def gen_history_c27(rng, maxlen):
             ops.append(["del", rng.choice(["P1", "P2", "P3", "S1", "S2"]), rng.choice(METHODS)])
         elif r < 0.88:
             counter[0] += 1
-            ops.append(["iset", rng.choice(["p1", "p2", "p3", "p3b"]), rng.choice(METHODS), counter[0]])
+            ops.append(["iset", rng.choice(dict_insts), rng.choice(METHODS), counter[0]])
         elif r < 0.94:
-            ops.append(["idel", rng.choice(["p1", "p2", "p3", "p3b"]), rng.choice(METHODS)])
+            ops.append(["idel", rng.choice(dict_insts), rng.choice(METHODS)])
         else:
             ops.append(["pair", rng.choice(insts), rng.choice(insts)])
     for i in insts:
@@ -471,13 +513,16 @@ def run_history_c27(mod, h):
     for op in h["ops"]:
         k = op[0]
         try:
-            if op[0] in ("call", "set", "del", "iset", "idel") and "k" in op[1:4] and h["world"]["base"] == "A":
-                continue        # k is cdef-only in A: not part of the Python-visible protocol there
+            efam = h["world"]["base"].startswith("E")
+            if op[0] in ("call", "set", "del", "iset", "idel") and "k" in op[1:4] and (h["world"]["base"] == "A" or efam):
+                continue        # k is cdef-only in A (and absent in the Exception-based family): not part of the Python-visible protocol there
             if k == "call":
                 o = inst[op[1]]
                 expected = getattr(o, op[2])()          # what Python attribute lookup selects, evaluated by CPython itself
                 if op[3] == "py":
                     got = expected
+                elif efam:
+                    got = getattr(mod, {"f": "cc_ef2" if op[3] == "c2" else "cc_ef", "g": "cc_eg"}[op[2]])(o)
                 elif op[3] == "c2" and op[2] == "f":
                     got = mod.cc_f2(o)
                 elif op[3] == "c2" and op[2] == "k":
@@ -491,7 +536,7 @@ def run_history_c27(mod, h):
             elif k == "pair":
                 o, p = inst[op[1]], inst[op[2]]
                 expected = (o.f(), p.f(), o.g(), p.g())
-                got = mod.cc_pair(o, p)
+                got = (mod.cc_epair if h["world"]["base"].startswith("E") else mod.cc_pair)(o, p)
                 keys = [(type(o).__name__, "f"), (type(p).__name__, "f"), (type(o).__name__, "g"), (type(p).__name__, "g")]
                 stale = all(e == g or g in past.get(kk, ()) for e, g, kk in zip(expected, got, keys))
                 for e, kk in zip(expected, keys):
